@@ -22,8 +22,8 @@ if [ ! -d "$B/src" ]; then
   printf '#define KALIGN_PACKAGE_NAME "kalign"\n#define KALIGN_PACKAGE_VERSION "%s"\n' "$VER" > "$B.tmp$$/gen/version.h"
   echo "$VER" > "$B.tmp$$/gen/VERSION"
   mv "$B.tmp$$" "$B" 2>/dev/null || rm -rf "$B.tmp$$"
-  # prune old builds, keep the 3 most recent
-  ls -1dt "$BROOT"/*/ 2>/dev/null | tail -n +4 | xargs -r rm -rf
+  # prune old builds, keep the 7 most recent
+  ls -1dt "$BROOT"/*/ 2>/dev/null | tail -n +8 | xargs -r rm -rf
 fi
 touch "$B"
 VER=$(cat "$B/gen/VERSION")
